@@ -248,6 +248,12 @@ def readByte (r : BytesReader) : M (BytesReader × UInt8) :=
 def readU64LE (r : BytesReader) : M (BytesReader × UInt64) :=
   readFull r 8 >>= fun t => pure (t.1, UInt64.ofNat (leDecode t.2))
 
+/-- `*p` for a pointer used as an optional value: nil panics -/
+def deref {α : Type} (p : Option α) : M α :=
+  match p with
+  | some v => pure v
+  | none => pnc "invalid memory address or nil pointer dereference"
+
 /-- a call of a function whose Go error travels through the monad, made by a function that treats errors as data: the
     error comes back as a value next to the zero results; panics and fuel exhaustion still propagate -/
 def catchErr {α : Type} (x : M α) (dflt : α) : M (α × Error) :=
